@@ -623,9 +623,19 @@ class PenlogReader:
     def records(
         self,
         priority: PenlogPriority = PenlogPriority.TRACE,
-        offset: int = 0,
+        offset: int | None = None,
         reverse: bool = False,
     ) -> Iterator[PenlogRecord]:
+        n_records = len(self)
+        if offset is None:
+            # Reading backwards starts at the last record.
+            offset = n_records - 1 if reverse else 0
+        elif offset < 0:
+            # Counted from the end; a tail which is longer than the log is the whole log.
+            offset = max(n_records + offset, 0)
+        if offset >= n_records:
+            return
+
         self.seek_to_record(offset)
         if reverse is False:
             while True:
@@ -638,10 +648,9 @@ class PenlogReader:
                 self.readline()
                 if self.current_priority <= priority:
                     yield self.current_record
-                try:
-                    self.seek_to_previous_record()
-                except IndexError:
+                if self._current_record_index == 0:
                     break
+                self.seek_to_previous_record()
 
     def readline(self) -> bytes:
         self._current_record = None
